@@ -307,6 +307,26 @@ mut("C02", "accept-loop-swaps-the-tiers", LISTEN, "reqParser, o(l1, l2, responde
 mut("C02", "batch-port-gets-l2-as-l1", "app/memproxy.go", "\t\tgo server.ListenAndServe(l, protocols, server.Default, o, h1, h2)\n\t}", "\t\tgo server.ListenAndServe(l, protocols, server.Default, o, h2, h2)\n\t}", "R2.9")
 mut("C09", "append-restores-with-the-commands-ttl", CH, "\t\tExptime: metaData.Exptime,", "\t\tExptime: cmd.Exptime,", "R9.11", "append/prepend carry no TTL: the item would never expire again")
 
+# --- hand-written probes of round 6/7 kept as mutants
+mut("C01", "getq-serialised-as-get", "protocol/binprot/commands.go", "\treturn writeKeyCmd(w, OpcodeGetQ, key, opaque)", "\treturn writeKeyCmd(w, OpcodeGet, key, opaque)", "R1.5", nth=0)
+mut("C08", "text-value-missing-crlf", "protocol/textprot/respond.go", "\tn, err = t.writer.WriteString(\"\\r\\n\")\n\tmetrics.IncCounterBy(common.MetricBytesWrittenRemote, uint64(n))\n\tif err != nil {\n\t\treturn err\n\t}\n\n\tt.writer.Flush()", "\tt.writer.Flush()", "R8.15", nth=0)
+mut("C07", "listen-parser-responder-of-different-protocols", "server/listen.go", "\t\t\t\t\tresponder = p.NewResponder(remoteWriter)\n\t\t\t\t\tmatched = true", "\t\t\t\t\tresponder = ps[0].NewResponder(remoteWriter)\n\t\t\t\t\tmatched = true", "R7.12", nth=0)
+mut("C07", "listen-match-ignored", "server/listen.go", "\t\t\t\tif match {\n\t\t\t\t\treqParser", "\t\t\t\tif match || true {\n\t\t\t\t\treqParser", "R7.12", nth=0)
+mut("C01", "std-get-reads-exptime-extras", "handlers/memcached/std/handler.go", "\t\tdata, flags, _, err := GetLocal(rw, false)", "\t\tdata, flags, _, err := GetLocal(rw, true)", "R1.21", nth=0)
+mut("C01", "std-gat-hit-flags-zero", "handlers/memcached/std/handler.go", "\t\tOpaque: cmd.Opaque,\n\t\tFlags:  flags,\n\t\tKey:    cmd.Key,\n\t\tData:   data,\n\t}, nil", "\t\tOpaque: cmd.Opaque,\n\t\tFlags:  0,\n\t\tKey:    cmd.Key,\n\t\tData:   data,\n\t}, nil", "R1.21", nth=0)
+mut("C01", "std-getlocal-exp-read-before-flags", "handlers/memcached/std/localComm.go", "\tvar serverFlags uint32\n\tbinary.Read(rw, binary.BigEndian, &serverFlags)\n\tmetrics.IncCounterBy(common.MetricBytesReadLocal, 4)\n\n\tvar serverExp uint32\n\tif readExp {\n\t\tbinary.Read(rw, binary.BigEndian, &serverExp)\n\t\tmetrics.IncCounterBy(common.MetricBytesReadLocal, 4)\n\t}\n", "\tvar serverFlags uint32\n\tvar serverExp uint32\n\tif readExp {\n\t\tbinary.Read(rw, binary.BigEndian, &serverExp)\n\t\tmetrics.IncCounterBy(common.MetricBytesReadLocal, 4)\n\t}\n\tbinary.Read(rw, binary.BigEndian, &serverFlags)\n\tmetrics.IncCounterBy(common.MetricBytesReadLocal, 4)\n", "R1.21", nth=0)
+mut("C01", "std-getlocal-returns-flags-as-exp", "handlers/memcached/std/localComm.go", "\treturn buf, serverFlags, serverExp, nil", "\treturn buf, serverExp, serverFlags, nil", "R1.21", nth=0)
+mut("C06", "batched-reader-flags-exp-swapped", "handlers/memcached/batched/conn.go", "\t\t\t\t\t\t\tFlags:   serverFlags,\n\t\t\t\t\t\t\tExptime: serverExp,", "\t\t\t\t\t\t\tFlags:   serverExp,\n\t\t\t\t\t\t\tExptime: serverFlags,", "R6.13", nth=0)
+mut("C06", "batched-reader-reads-exp-for-gat", "handlers/memcached/batched/conn.go", "\t\t\t\tif resHeader.Opcode == binprot.OpcodeGetE || resHeader.Opcode == binprot.OpcodeGetEQ {\n\t\t\t\t\tn, err = io.ReadAtLeast(c.rw, b, 4)", "\t\t\t\tif resHeader.Opcode == binprot.OpcodeGetE || resHeader.Opcode == binprot.OpcodeGat {\n\t\t\t\t\tn, err = io.ReadAtLeast(c.rw, b, 4)", "R6.13", nth=0)
+mut("C04", "chunked-getlocal-does-not-skip-flags", "handlers/memcached/chunked/localComm.go", "\t// instead of reading and parsing flags, just discard\n\trw.Discard(4)\n\tmetrics.IncCounterBy(common.MetricBytesReadLocal, 4)\n\n\t// Read in token if requested", "\t// Read in token if requested", "R4.17", nth=0)
+mut("C04", "chunked-get-hit-flags-zero", "handlers/memcached/chunked/handler.go", "\t\t\tFlags:  metaData.OrigFlags,", "\t\t\tFlags:  0,", "R4.12", nth=1)
+mut("C05", "chunked-get-hit-data-is-token-buffer", "handlers/memcached/chunked/handler.go", "\t\t\tData:   dataBuf,", "\t\t\tData:   tokenBuf,", "R5.7", nth=1)
+mut("C08", "l1l2-get-l2-results-hits-only", "orcas/l1l2.go", "\t\t\t\tl.res.Get(getres)\n\t\t\t}\n\n\t\tcase getErr, ok := <-errChan:\n\t\t\tif !ok {\n\t\t\t\terrChan = nil", "\t\t\t\tif !getres.Miss {\n\t\t\t\t\tl.res.Get(getres)\n\t\t\t\t}\n\t\t\t}\n\n\t\tcase getErr, ok := <-errChan:\n\t\t\tif !ok {\n\t\t\t\terrChan = nil", "R8.16", nth=0)
+mut("C08", "binresp-error-header-declares-body", "protocol/binprot/respond.go", "\theader.Status = status\n\theader.TotalBodyLength = uint32(0)", "\theader.Status = status\n\theader.TotalBodyLength = uint32(4)", "R8.4", nth=0)
+mut("C08", "l1l2-get-l1-hit-not-forwarded", "orcas/l1l2.go", "\t\t\t\t\tmetrics.IncCounter(MetricCmdGetHitsL1)\n\t\t\t\t\tl.res.Get(res)", "\t\t\t\t\tmetrics.IncCounter(MetricCmdGetHitsL1)\n\t\t\t\t\t_ = res", "R8.16", nth=0)
+mut("C18", "inccounterby-load-then-store", MC, "\tatomic.AddUint64(&counters[id], amount)\n", "\tatomic.StoreUint64(&counters[id], atomic.LoadUint64(&counters[id])+amount)\n", "R18.13", "seed C18K: lost updates")
+mut("C18", "power-of-4-table-digits-transposed", HI, "149, 158, 167, 176, 185, 194", "149, 158, 167, 176, 158, 194", "R18.14", "seed C18M")
+
 for prop, ms in sorted(M.items()):
     json.dump(ms, open(os.path.join(ROOT, "rendlint", "mutants", prop + ".json"), "w"), indent=1)
     print(prop, len([m for m in ms if m["kind"] == "mutant"]), "mutants,", len([m for m in ms if m["kind"] == "variant"]), "variants")
